@@ -114,6 +114,10 @@ structure IterCfg where
   dbUpperOp : CmpOp
   dbSeekLowerOp : CmpOp
   dbSeekUpperOp : CmpOp
+  /-- `ConcatIterator.Seek`, forward: first table with `CompareKeys(MaxKey, key) <op> 0` -/
+  concatFwdOp : CmpOp
+  /-- `ConcatIterator.Seek`, reverse: last table with `CompareKeys(MinKey, key) <op> 0` -/
+  concatRevOp : CmpOp
   deriving DecidableEq, Repr
 
 def IterCfg.good : IterCfg :=
@@ -121,7 +125,8 @@ def IterCfg.good : IterCfg :=
     lastKeyOnSkip := true, revGroup := .newest, dbRevSeekTs := .zero, dbSkipsDeleted := true, sstSeekFallsThrough := true,
     txnLowerOp := .lt, txnUpperOp := .ge, txnSeekLowerOp := .lt, txnSeekUpperOp := .ge,
     txnReadTsOp := .gt, wrapReadTsOp := .gt, txnSinceOp := .le,
-    dbLowerOp := .lt, dbUpperOp := .ge, dbSeekLowerOp := .lt, dbSeekUpperOp := .ge }
+    dbLowerOp := .lt, dbUpperOp := .ge, dbSeekLowerOp := .lt, dbSeekUpperOp := .ge,
+    concatFwdOp := .ge, concatRevOp := .le }
 
 /-- the operator facts (none of them is a known defect) -/
 def IterCfg.OpsGood (c : IterCfg) : Prop :=
@@ -132,6 +137,12 @@ def IterCfg.OpsGood (c : IterCfg) : Prop :=
 instance IterCfg.decOpsGood (c : IterCfg) : Decidable c.OpsGood := by
   unfold IterCfg.OpsGood; exact inferInstance
 
+/-- the table-selection rules of `ConcatIterator.Seek` -/
+def IterCfg.ConcatGood (c : IterCfg) : Prop := c.concatFwdOp = .ge ∧ c.concatRevOp = .le
+
+instance IterCfg.decConcatGood (c : IterCfg) : Decidable c.ConcatGood := by
+  unfold IterCfg.ConcatGood; exact inferInstance
+
 /-- merge keeps the left child on equal internal keys -/
 def IterCfg.MergeGood (c : IterCfg) : Prop := c.eqKeyAdvances = .right
 
@@ -141,7 +152,7 @@ instance IterCfg.decMergeGood (c : IterCfg) : Decidable c.MergeGood := by
 /-- everything the transaction-iterator theorem needs -/
 def IterCfg.TxnGood (c : IterCfg) : Prop :=
   c.OpsGood ∧ c.eqKeyAdvances = .right ∧ c.immOrder = .newestFirst ∧ c.pendingCmp = .compareKeys ∧
-  c.lastKeyOnSkip = true ∧ c.revGroup = .newest ∧ c.sstSeekFallsThrough = true
+  c.lastKeyOnSkip = true ∧ c.revGroup = .newest ∧ c.sstSeekFallsThrough = true ∧ c.ConcatGood
 
 instance IterCfg.decTxnGood (c : IterCfg) : Decidable c.TxnGood := by
   unfold IterCfg.TxnGood; exact inferInstance
@@ -149,7 +160,7 @@ instance IterCfg.decTxnGood (c : IterCfg) : Decidable c.TxnGood := by
 /-- everything the DB-iterator theorem needs -/
 def IterCfg.DbGood (c : IterCfg) : Prop :=
   c.OpsGood ∧ c.eqKeyAdvances = .right ∧ c.immOrder = .newestFirst ∧ c.dbRevSeekTs = .zero ∧
-  c.dbSkipsDeleted = true ∧ c.sstSeekFallsThrough = true
+  c.dbSkipsDeleted = true ∧ c.sstSeekFallsThrough = true ∧ c.ConcatGood
 
 instance IterCfg.decDbGood (c : IterCfg) : Decidable c.DbGood := by
   unfold IterCfg.DbGood; exact inferInstance
@@ -191,6 +202,18 @@ def blockSeek (ft : Bool) (t : Ent) : List (List Ent) → List Ent
       let r := b.dropWhile (fun e => ikLt e t)
       if r.isEmpty then (if ft then (b2 :: rest).flatten else []) else r ++ (b2 :: rest).flatten
     else blockSeek ft t (b2 :: rest)
+
+/-- `utils.CompareKeys a b <op> 0` -/
+def icmp (op : CmpOp) (a b : Ent) : Bool := op.eval (ikLt a b) (ikEq a b)
+
+/-- `ConcatIterator.Seek`: the first element of the list (tables in iteration order) that `hit`s
+is sought with `inner`; when that leaves the table iterator invalid the concat iterator is invalid,
+otherwise the remaining tables follow -/
+def concatPick {α : Type} (items : α → List Ent) (hit : α → Bool) (inner : α → List Ent) : List α → List Ent
+  | [] => []
+  | T :: rest =>
+    if hit T then (if (inner T).isEmpty then [] else inner T ++ (rest.map items).flatten)
+    else concatPick items hit inner rest
 
 /-! ### MergeIterator -/
 
@@ -257,6 +280,9 @@ structure DB where
   imms : List (List Ent) := []
   /-- level-0 tables as `iteratorsReversed` lists them: newest first; a table is its list of blocks -/
   l0 : List (List (List Ent)) := []
+  /-- main tables of the base level (the only level >= 1 the harness fills), ascending and
+  disjoint; a table is its list of blocks -/
+  lvl : List (List (List Ent)) := []
   /-- `oracle.nextTxnTs` -/
   nextTs : Nat := 1
   deriving Repr
@@ -307,6 +333,33 @@ def DB.flush (db : DB) (vt : Nat) : DB :=
   | [] => db
   | t :: rest => { db with imms := rest, l0 := (if t.isEmpty then db.l0 else cutBySize vt t :: db.l0) }
 
+/-- user-key ranges `[min, max]` of two non-empty sorted runs intersect (`getKeyRange` takes all
+versions of the smallest and largest user key) -/
+def rangesOverlap (a b : List Ent) : Bool :=
+  match a.head?, a.getLast?, b.head?, b.getLast? with
+  | some a0, some a1, some b0, some b1 => !Bytes.lt a1.key b0.key && !Bytes.lt b1.key a0.key
+  | _, _, _, _ => false
+
+/-- `l0move` + ingest `drain` of the single level-0 table: it is merged (kept on equal internal
+keys) with the main tables of the base level whose key range it overlaps; the result replaces them.
+No entry is dropped by the compaction. -/
+def DB.sink (c : IterCfg) (db : DB) (vt : Nat) : DB :=
+  match db.l0 with
+  | [T] =>
+    let top := T.flatten
+    let before := db.lvl.takeWhile (fun X => !rangesOverlap top X.flatten)
+    let restL := db.lvl.dropWhile (fun X => !rangesOverlap top X.flatten)
+    let hitL := restL.takeWhile (fun X => rangesOverlap top X.flatten)
+    let after := restL.dropWhile (fun X => rangesOverlap top X.flatten)
+    let merged := merge2 c.eqKeyAdvances false top hitL.flatten.flatten
+    -- tables to the left of the new one: those entirely below it
+    let lo := (before ++ after).filter (fun X => match X.flatten.head?, merged.head? with
+      | some x, some m => ikLt x m | _, _ => true)
+    let hi := (before ++ after).filter (fun X => match X.flatten.head?, merged.head? with
+      | some x, some m => !ikLt x m | _, _ => false)
+    { db with l0 := [], lvl := lo ++ [cutBySize vt merged] ++ hi }
+  | _ => db
+
 def DB.readTs (db : DB) : Nat := db.nextTs - 1
 
 /-- pending writes of the iterating transaction as `newPendingWritesIterator` sorts them
@@ -326,22 +379,47 @@ structure Source where
   blocks : List (List Ent)
   /-- wrapped in a `readTsIterator` -/
   wrapped : Bool
+  /-- `some ts`: a `ConcatIterator` over the tables `ts` of a level (then `blocks = ts.flatten`) -/
+  tables : Option (List (List (List Ent)))
   deriving Repr
 
 def Source.items (s : Source) : List Ent := s.blocks.flatten
 
+/-- forward table selection: `CompareKeys(MaxKey, key) <op> 0` -/
+def hitFwd (op : CmpOp) (t : Ent) (T : List (List Ent)) : Bool :=
+  match T.flatten.getLast? with | some m => icmp op m t | none => false
+
+/-- reverse table selection: `CompareKeys(MinKey, key) <op> 0` -/
+def hitRev (op : CmpOp) (t : Ent) (T : List (List Ent)) : Bool :=
+  match T.flatten.head? with | some m => icmp op m t | none => false
+
+/-- `ConcatIterator.Seek` over the tables of a level -/
+def concatSeek (c : IterCfg) (rev : Bool) (t : Ent) (ts : List (List (List Ent))) : List Ent :=
+  if rev then
+    concatPick (fun T => T.flatten.reverse) (hitRev c.concatRevOp t)
+      (fun T => T.flatten.reverse.dropWhile (fun e => ikLt t e)) ts.reverse
+  else
+    concatPick List.flatten (hitFwd c.concatFwdOp t) (fun T => blockSeek c.sstSeekFallsThrough t T) ts
+
 /-- `Seek t` on one source -/
 def Source.seek (c : IterCfg) (s : Source) (rev : Bool) (t : Ent) : List Ent :=
+  match s.tables with
+  | some ts => concatSeek c rev t ts
+  | none =>
   match s.cmp with
   | .rawBytes => srcSeek .rawBytes rev t s.items
   | .compareKeys => if rev then srcSeek .compareKeys true t s.items else blockSeek c.sstSeekFallsThrough t s.blocks
 
+/-- the `ConcatIterator` of the base level (absent when the level holds no table) -/
+def levelSource (db : DB) (wrapped : Bool) : List Source :=
+  if db.lvl.isEmpty then [] else [⟨.compareKeys, db.lvl.flatten, wrapped, some db.lvl⟩]
+
 def txnSources (c : IterCfg) (db : DB) (update : Bool) (pend : List Write) : List Source :=
-  (if update && !pend.isEmpty then [⟨c.pendingCmp, [pendingList c db.readTs pend], false⟩] else []) ++
-  (lsmSources c db).map (fun s => ⟨.compareKeys, s, true⟩)
+  (if update && !pend.isEmpty then [⟨c.pendingCmp, [pendingList c db.readTs pend], false, none⟩] else []) ++
+  (lsmSources c db).map (fun s => ⟨.compareKeys, s, true, none⟩) ++ levelSource db true
 
 def dbSources (c : IterCfg) (db : DB) : List Source :=
-  (lsmSources c db).map (fun s => ⟨.compareKeys, s, false⟩)
+  (lsmSources c db).map (fun s => ⟨.compareKeys, s, false, none⟩) ++ levelSource db false
 
 /-- the stream a positioned source yields (`readTsIterator.ensureVisible` = a filter) -/
 def Source.wrap (c : IterCfg) (readTs : Nat) (s : Source) (l : List Ent) : List Ent :=
